@@ -221,13 +221,15 @@ claimed["C08"] = (
     "values): operation by operation for the whole Storage API (insert, remove, get_mut, get_mut_or_default, drain, entry "
     "API, clear / Drop - VecStorage, DenseVecStorage, the map storages and the null storage, both wrappers), for entity "
     "deletion, and over whole histories of the specification world (every storage the plain map, with which the "
-    "implementation's results and destroyed values are compared on every explored history): for every history without "
-    "join operations in which components are registered before use, what the world holds at the end, everything handed "
-    "back and everything destroyed along the way are what it held at the start plus everything moved in; hence from the "
-    "empty world to the dropped world every value moved in is handed back or destroyed exactly once. Partial: histories "
-    "with joins are covered by the cell-level theorems of C06 (a drain removes exactly the visited components) rather than "
-    "by the history theorem; DefaultVecStorage's gap values are accounted by the per-history ledger; destructor panics are "
-    "C19.", "5.C08")
+    "implementation's results and destroyed values are compared on every explored history): for every history - joins "
+    "included: a join moves nothing in and destroys nothing, what it hands out for good are exactly the values its drain "
+    "members removed; a builder destroys a value it swaps out - in which components are registered before use, what the "
+    "world holds at the end, everything handed back and everything destroyed along the way are what it held at the start "
+    "plus everything moved in; hence from the empty world to the dropped world every value moved in is handed back or "
+    "destroyed exactly once. For the default-filled kind (DefaultVecStorage keeps a value in every slot) the equation is "
+    "proved per raw operation with the fillers counted: cells after + handed back + destroyed = cells before + moved in + "
+    "defaults made. Partial: the whole-history theorem is for worlds whose storages are of the kinds without default-"
+    "filled gaps (the per-history ledger of the harness covers all kinds); destructor panics are C19.", "5.C08")
 claimed["C20"] = (
     "The models are Gallina functions of the history, so whatever they compute depends on nothing else; the theorems "
     "(closed under the global context) show that the orders do not come from anywhere but membership: two sets with the "
